@@ -145,7 +145,9 @@ func (s *Session) oblig(kind, label string, tags []string, reach, goal string, p
 			ob.Canary = true
 		}
 	}
-	if neverAssume[name] {
+	if neverAssume[name] || kind == "frame" || kind == "variant" {
+		// write-set and termination obligations are not facts later reasoning needs; assuming a refuted
+		// one would make the rest of the path vacuous for the checks of the other properties
 		ob.NoAssume = true
 	}
 	ob.Index = len(s.Items)
